@@ -1,4 +1,4 @@
-"""A transition between states of different depth inside one composite state (C18, known finding C18.O2).
+"""A transition between states of different depth inside one composite state (C18.O2; repaired by da78378: VIOLATED before, HOLDS after).
 Run in a checkout of secsgem:  cd <tree> && /venv/bin/python /verif/findings/25_uneven_depth_ancestor_walk/demo.py
 P contains X and the composite Q, Q contains Z.  The transition X -> Z stays inside P: P is neither left nor entered.
 State.enter / State.leave walk the two parent chains in lock step (`source.parent != self.parent`), which finds the
